@@ -3,8 +3,8 @@ import Rare.Model.Expr.Funcs.Float
 # C11: `{ln v}`, `{log10 v}`, `{log2 v}`, `{pow v e}` – `math.Log`, `math.Log10`, `math.Log2`, `math.Pow` as they run
 
 `funcs.go` binds `ln` / `log10` / `log2` to `unaryArithmaticHelperf(math.Log | math.Log10 | math.Log2)` and `pow`
-to `arithmaticHelperf(math.Pow)`.  On amd64 (the platform of the check; `harness/extract/c11.go` records
-GOARCH in the fingerprint) these are
+to `arithmaticHelperf(math.Pow)`.  On amd64 (the platform of the check; `harness/extract/c11.go` regenerates
+GOARCH, the constants and probe values, `Props/C11.lean` `gen_log_platform`) these are
 
 * `math.Log`   = `archLog`, `src/math/log_amd64.s`: a straight line of SSE2 double operations (the FreeBSD
   `e_log.c` polynomial).  It is mirrored here instruction by instruction on the software binary64 model, so the
